@@ -1,8 +1,13 @@
 /-
   Line-protocol component for JRV.Model.Transport:
-    net <beh>* (/ <beh>*)*     one script per call, calls separated by `/`; tokens start at 0
-        beh = ok | okc | down | cbr | rst | sl<code> | snl<code> | bl<code> | trunc | empty | nonjson
+    net lib:<d><c> <beh>* (/ <beh>*)*     one script per call, calls separated by `/`; tokens start at 0;
+                                          d, c ∈ {0,1}: the `Lib` switches (drain when a length is announced, close when none is)
+        beh = ok | okc | down | cbr | rst | trunc | empty | nonjson
+            | sl<code>[o|f|e] | snl<code>[o|f|e]          status with a body (code ≠ 200, 204, 304, ≥ 200), length announced / not
+            | bl204 | bl304 | blz204 | blz304             bodiless, without / with `Content-Length: 0`
+            | xn<k> | xl<k> | sx<code> | sy<code> | sz<code>_<k>
       → one outcome per call: r<tok> | te<code> | o:<kind>
+    Anything else (unknown behaviour, a code outside the domain) answers `bad-op`.
 -/
 import JRV.Driver.Codec
 import JRV.Model.Transport
@@ -10,16 +15,47 @@ import JRV.Model.Transport
 namespace JRV.Driver
 open JRV.Transport
 
+def errCode? (s : String) : Option ErrCode :=
+  match s.toNat? with
+  | some n => if h : bodyStatus n = true then some ⟨n, h⟩ else none
+  | none => none
+
+/-- `<digits><suffix>` with suffix ∈ {"", "o", "f", "e"}. -/
+def codeBody? (cs : List Char) : Option (ErrCode × Body) :=
+  match cs.reverse with
+  | 'o' :: ds => (errCode? (String.ofList ds.reverse)).map (·, Body.own)
+  | 'f' :: ds => (errCode? (String.ofList ds.reverse)).map (·, Body.foreign)
+  | 'e' :: ds => (errCode? (String.ofList ds.reverse)).map (·, Body.errObj)
+  | _ => (errCode? (String.ofList cs)).map (·, Body.text)
+
 def beh? (s : String) : Option Beh :=
   match s with
   | "ok" => some .okKeep | "okc" => some .okClose | "down" => some .down | "cbr" => some .closeBeforeReply
   | "rst" => some .reset | "trunc" => some .truncated | "empty" => some .empty200 | "nonjson" => some .nonJson200
+  | "bl204" => some (.bodiless false false) | "bl304" => some (.bodiless true false)
+  | "blz204" => some (.bodiless false true) | "blz304" => some (.bodiless true true)
   | _ =>
     match s.toList with
-    | 's' :: 'n' :: 'l' :: ds => (String.ofList ds).toNat?.map .statusNoLenClose
-    | 's' :: 'l' :: ds => (String.ofList ds).toNat?.map .statusLen
-    | 'b' :: 'l' :: ds => (String.ofList ds).toNat?.map .bodiless
+    | 's' :: 'n' :: 'l' :: ds => (codeBody? ds).map fun p => .status p.1 false p.2
+    | 's' :: 'l' :: ds => (codeBody? ds).map fun p => .status p.1 true p.2
+    | 's' :: 'x' :: ds => (errCode? (String.ofList ds)).map .statusLongNow
+    | 's' :: 'y' :: ds => (errCode? (String.ofList ds)).map fun c => .statusLongLate c none
+    | 's' :: 'z' :: ds =>
+      match (String.ofList ds).splitOn "_" with
+      | [c, k] => do
+        let c ← errCode? c
+        let k ← k.toNat?
+        pure (.statusLongLate c (some k))
+      | _ => none
+    | 'x' :: 'n' :: ds => (String.ofList ds).toNat?.map .okExtraNow
+    | 'x' :: 'l' :: ds => (String.ofList ds).toNat?.map .okThenLate
     | _ => none
+
+def lib? (s : String) : Option Lib :=
+  match s with
+  | "lib:00" => some ⟨false, false⟩ | "lib:01" => some ⟨false, true⟩
+  | "lib:10" => some ⟨true, false⟩ | "lib:11" => some ⟨true, true⟩
+  | _ => none
 
 def splitCalls (toks : List String) : List (List String) :=
   let rec go (toks : List String) (cur : List String) (acc : List (List String)) : List (List String) :=
@@ -35,9 +71,12 @@ def showOutcome : Outcome → String
   | .other k => "o:" ++ k
 
 def netC (toks : List String) : String :=
-  match (splitCalls toks).mapM (fun call => call.mapM beh?) with
-  | some scripts => " ".intercalate ((session none 0 scripts).1.map showOutcome)
-  | none => "bad-op"
+  match toks with
+  | l :: toks =>
+    match lib? l, (splitCalls toks).mapM (fun call => call.mapM beh?) with
+    | some lib, some scripts => " ".intercalate ((session lib none 0 scripts).1.map showOutcome)
+    | _, _ => "bad-op"
+  | [] => "bad-op"
 
 def transportComponents : List (String × (List String → String)) := [("net", netC)]
 
